@@ -10,7 +10,7 @@ from mcv.gen import containers as C
 from mcv.gen import cue as Q
 from mcv.checks.c10 import parse_table
 
-ENCODINGS = ["raw", "raw2352", "mdx", "cue_raw", "cue_2352", "cue_subdir", "cue_cosmetic", "mdx20"]
+ENCODINGS = ["raw", "raw2352", "mdx", "cue_raw", "cue_2352", "cue_subdir", "cue_cosmetic", "mdx20", "raw2352_mixed", "cue_2352_mixed"]
 
 
 def write_encodings(d, payload):
@@ -23,6 +23,15 @@ def write_encodings(d, payload):
     # the same wrapper with version bytes 2.0 (the reader has never looked at them) and without anything behind the payload
     with open(os.path.join(d, "y.mdx"), "wb") as f:
         f.write(C.mdx(payload, descriptor=0, version=b"\x02\x00"))
+    # a mixed-mode disc: the data track in 2352-byte raw sectors, followed by an audio track (raw sectors without sync
+    # pattern / header), as a bare bin and through its cue sheet
+    nsec = len(raw2352) // 2352
+    audio = bytes((k * 29 + 7) % 253 for k in range(3 * 2352))
+    with open(os.path.join(d, "m.bin"), "wb") as f:
+        f.write(raw2352 + audio)
+    m, r = divmod(nsec, 60 * 75)
+    with open(os.path.join(d, "m.cue"), "w") as f:
+        f.write(C.data_cue("m.bin", "MODE1/2352") + '  TRACK 02 AUDIO\n    INDEX 01 %02d:%02d:%02d\n' % (m, r // 75, r % 75))
     with open(os.path.join(d, "a.cue"), "w") as f:
         f.write(C.data_cue("a.bin", "MODE1/2048"))
     with open(os.path.join(d, "b.cue"), "w") as f:
@@ -40,7 +49,7 @@ def write_encodings(d, payload):
     with open(os.path.join(d, "d.cue"), "wb") as f:
         f.write(b'rem made by some tool\r\nTitle "disc"\r\nperformer "x"\r\nRem FILE "z.bin" BINARY\r\n  file "a.bin" binary  \r\n\r\n'
                 b'\ttrack 01 mode1/2048\r\n      flags dcp\r\n      Index 01 00:00:00  \r\n\r\n')
-    return {"mdx20": os.path.join(d, "y.mdx"), "cue_cosmetic": os.path.join(d, "d.cue"), "raw": os.path.join(d, "raw.img"), "raw2352": os.path.join(d, "raw2352.bin"), "mdx": os.path.join(d, "x.mdx"),
+    return {"raw2352_mixed": os.path.join(d, "m.bin"), "cue_2352_mixed": os.path.join(d, "m.cue"), "mdx20": os.path.join(d, "y.mdx"), "cue_cosmetic": os.path.join(d, "d.cue"), "raw": os.path.join(d, "raw.img"), "raw2352": os.path.join(d, "raw2352.bin"), "mdx": os.path.join(d, "x.mdx"),
             "cue_raw": os.path.join(d, "a.cue"), "cue_2352": os.path.join(d, "b.cue"), "cue_subdir": os.path.join(d, "sub", "c.cue")}
 
 
@@ -83,7 +92,11 @@ def run_case(case):
     with scratch_dir("c09") as d:
         paths = write_encodings(d, payload)
         base = None
+        cut = any(case.get(k) for k in ("drop_sectors", "drop_bytes", "drop_2048"))
         for enc in ENCODINGS:
+            if cut and enc.endswith("_mixed"):
+                # behind an image that ends early the audio track would stand where the missing bytes were: not the same image
+                continue
             st, obs = guarded(lambda: observe(paths[enc]), 120.0)
             if st != "ok":
                 return False, f"{enc}:" + ("raised:" + exc_sig(obs) if st == "exc" else "hang"), {"encoding": enc, "observed": repr(obs)[:300]}
@@ -157,7 +170,7 @@ class Check(CheckBase):
             "chains/window/header sweeps of C02 (quick: every 12th; odd cluster counts make cluster reads straddle 2048-byte "
             "user-data boundaries) x trailing bytes {0,1,2047,2048} (zero and non-zero), one small image with every trailing sector count 0..127 "
             "(thorough 0..511), truncated payloads (whole sectors dropped; the image ending inside the audio of its last sample; Roland images ending 1..2048 bytes before the end of their last cluster), x the encodings {raw, MODE1/2352, "
-            "MDX (version 2.1 with the descriptor behind the payload; version 2.0 without), cue->raw, cue->2352, cue in another directory naming its bin with a path, cue->raw written with lower/mixed case "
+            "MDX (version 2.1 with the descriptor behind the payload; version 2.0 without), 2352-byte sectors followed by an audio track (bare and through its cue sheet), cue->raw, cue->2352, cue in another directory naming its bin with a path, cue->raw written with lower/mixed case "
             "keywords, header and unknown lines, tabs, blank lines and CR LF} as real files: same image class, character-identical ls text at every node reachable "
             "through the printed names, identical exported trees (paths + bytes); cue dispatch: all combinations of "
             "AUDIO/MODE1/2352/MODE2/2352 modes over <=3 tracks; long sheets: n titled audio tracks (+ a data track last) for "
